@@ -18,7 +18,8 @@ import (
 // OptionFlow (C14 clause 3): the include-source-information option may only be forwarded, as an
 // argument, down to the trailing-comment helper; any other use (a branch, a comparison, a store)
 // lets the option change something other than comments.
-//   optField: the struct field holding the option; helper: the only function allowed to branch on it.
+//
+//	optField: the struct field holding the option; helper: the only function allowed to branch on it.
 func OptionFlow(p *load.Prog, r *oblig.Report, rule string, optStruct, optField string, helper *ssa.Function, funcs []*ssa.Function) {
 	if helper == nil {
 		r.Unknown(rule, "anchor:comment-helper", "-", "trailing-comment helper not found")
